@@ -164,9 +164,14 @@ func RunConc(s *kernel.Sim, prof *Profile, free bool) *Env {
 	if free {
 		maxOps = 8
 	}
-	w := []int{2, 2, 3, 2, 3, 6, 3, 2, 2}
+	w := []int{2, 2, 3, 2, 4, 6, 4, 3, 2}
 	if prof.CondHeavy {
 		w = []int{1, 1, 1, 1, 10, 4, 8, 2, 1}
+	}
+	if t.Bool(1, 3) {
+		// focus: version juggling on one name (reads racing activate + delete-version)
+		w = []int{0, 1, 2, 2, 4, 2, 4, 4, 0}
+		e.Names = e.Names[:1]
 	}
 	var ops []*ConcOp
 	perClient := make([][]*ConcOp, nClients)
@@ -254,6 +259,32 @@ func RunConc(s *kernel.Sim, prof *Profile, free bool) *Env {
 			wg.Add(1)
 			s.Go(fmt.Sprintf("client%d", c), client(c))
 		}
+		// Half of the runs use priority scheduling (PCT style): every client
+		// gets a random priority, the highest-priority enabled ticket runs, and
+		// at a few random steps the running client drops to the bottom. This
+		// lets one client sit parked inside an operation while another runs
+		// several whole operations - interleavings that a uniform choice at
+		// every step reaches only with exponentially small probability.
+		pct := t.Bool(1, 2)
+		prio := map[string]int{}
+		changeAt := map[int]bool{}
+		if pct {
+			perm := make([]int, nClients)
+			for i := range perm {
+				perm[i] = i
+			}
+			for i := nClients - 1; i > 0; i-- {
+				j := t.Choice(i + 1)
+				perm[i], perm[j] = perm[j], perm[i]
+			}
+			for c := 0; c < nClients; c++ {
+				prio[fmt.Sprintf("client%d", c)] = perm[c] + 10
+			}
+			for k := t.Range(1, 3); k > 0; k-- {
+				changeAt[t.Choice(12*len(ops)+1)] = true
+			}
+		}
+		low := 0
 		for steps := 0; ; steps++ {
 			all, en := s.Tickets()
 			if len(all) == 0 {
@@ -271,7 +302,21 @@ func RunConc(s *kernel.Sim, prof *Profile, free bool) *Env {
 				e.fail("deadlock", "no progress after %d steps", steps)
 				break
 			}
-			s.Release(en[t.Choice(len(en))])
+			pick := en[0]
+			if pct {
+				for _, tk := range en {
+					if prio[tk.Task.Name] > prio[pick.Task.Name] {
+						pick = tk
+					}
+				}
+				if changeAt[steps] {
+					low--
+					prio[pick.Task.Name] = low
+				}
+			} else {
+				pick = en[t.Choice(len(en))]
+			}
+			s.Release(pick)
 			if s.Failed() {
 				break
 			}
